@@ -96,6 +96,9 @@ func (cb *concreteBuilder) build(ty *STy, j interface{}, reuse Value) (Value, bo
 			elems, _ = m["slice"].([]interface{})
 		}
 		n := int64(len(elems))
+		if n > concMaxLen {
+			concMaxLen = n
+		}
 		cp := n
 		if c, ok := m["cap"].(float64); ok {
 			cp = int64(c)
@@ -213,6 +216,11 @@ func (cb *concreteBuilder) build(ty *STy, j interface{}, reuse Value) (Value, bo
 	}
 	return nil, false
 }
+
+// concMaxLen: the longest slice/string of the record being evaluated; a quantifier whose finite
+// domain is smaller gives only definitive answers (a counterexample to a forall, a witness of an
+// exists) - otherwise the clause stays undetermined
+var concMaxLen int64
 
 type concCall struct {
 	seq  int
@@ -391,6 +399,69 @@ type groundEval struct {
 	budget   int
 	memo     map[*Term]*Term
 	deadline time.Time // evaluation of one record gives up (undetermined) after this
+	qdepth   int
+}
+
+// guardWithin: every bound variable of quantifier t is confined by its guard (conjuncts "v < c" /
+// "v <= c" with c evaluating to a constant) to values <= d, so that the finite domain [-1, d] covers
+// the whole range the guard admits (all ranges in contracts start at 0 or above).
+func (g *groundEval) guardWithin(t *Term, d int64) bool {
+	body := t.Args[0]
+	var guard *Term
+	switch {
+	case t.Op == "forall" && body.Op == "=>":
+		guard = body.Args[0]
+	case t.Op == "exists":
+		guard = body
+	default:
+		return false
+	}
+	var conj []*Term
+	splitConj(guard, &conj)
+	for _, b := range t.Bound {
+		ok := false
+		for _, c := range conj {
+			if len(c.Args) != 2 {
+				continue
+			}
+			l, r := unmark(c.Args[0]), unmark(c.Args[1])
+			if l != b {
+				continue
+			}
+			if c.Op != "bvslt" && c.Op != "bvsle" && c.Op != "bvult" && c.Op != "bvule" {
+				continue
+			}
+			if containsTerm(r, t.Bound) {
+				continue
+			}
+			rv := g.eval(r)
+			if !rv.IsConst() {
+				continue
+			}
+			v := toSigned(rv.Val, rv.S.W)
+			if v.IsInt64() && v.Int64() <= d+1 {
+				ok = true
+			}
+		}
+		if !ok {
+			return false
+		}
+	}
+	return true
+}
+
+func containsTerm(t *Term, vars []*Term) bool {
+	for _, v := range vars {
+		if t == v {
+			return true
+		}
+	}
+	for _, a := range t.Args {
+		if containsTerm(a, vars) {
+			return true
+		}
+	}
+	return false
 }
 
 // eval folds a closed formula over concrete data: quantifiers are expanded over a finite
@@ -419,6 +490,15 @@ func (g *groundEval) eval(t *Term) *Term {
 		if len(t.Bound) > 1 {
 			d = 24
 		}
+		// nested quantifiers range over smaller domains (the concrete data is small)
+		switch {
+		case g.qdepth == 1 && d > 40:
+			d = 40
+		case g.qdepth >= 2 && d > 14:
+			d = 14
+		}
+		g.qdepth++
+		defer func() { g.qdepth-- }()
 		for i, b := range t.Bound {
 			if b.S.IsBool() {
 				doms[i] = []*Term{True, False}
@@ -482,7 +562,7 @@ func (g *groundEval) eval(t *Term) *Term {
 				break
 			}
 		}
-		if undet && res == BoolConst(isAll) {
+		if (undet || (concMaxLen > d && !g.guardWithin(t, d))) && res == BoolConst(isAll) {
 			r = t
 		} else {
 			r = res
@@ -891,6 +971,7 @@ func (w *World) checkRecord(fi *FuncInfo, fs *FuncSpec, rec map[string]interface
 	mk := func() *State {
 		return &State{cells: map[*ssa.Alloc]Value{}, regs: map[ssa.Value]Value{}, heaps: map[string]*Term{}, globals: map[*ssa.Global]Value{}}
 	}
+	concMaxLen = 0
 	old := mk()
 	interp := map[string]*Term{}
 	cb := &concreteBuilder{st: old, w: w, interp: interp}
@@ -990,7 +1071,7 @@ func (w *World) checkRecord(fi *FuncInfo, fs *FuncSpec, rec map[string]interface
 	post := x.funcEnv(fi, "post", cur, old, args, results)
 	n := 0
 	for _, c := range fs.Clauses {
-		if c.Kind != "ensures" {
+		if c.Kind != "ensures" && c.Kind != "checked" {
 			continue
 		}
 		n++
@@ -1022,7 +1103,7 @@ func (w *World) checkRecord(fi *FuncInfo, fs *FuncSpec, rec map[string]interface
 			}
 		}
 		if ge.eval(t) == False {
-			return fmt.Sprintf("ensures#%d: %s", n, c.Text), true
+			return fmt.Sprintf("%s#%d: %s", c.Kind, n, c.Text), true
 		}
 	}
 	return "", true
